@@ -99,7 +99,9 @@ func (s *Streamer) Error() error {
 	case err, ok := <-s.errChan:
 		if ok {
 			switch {
-			case s.ctx.Err() == context.Canceled:
+			case s.ctx.Err() == context.Canceled && !err.unprompted:
+				// stopped by the caller; a stream that had already ended for
+				// another reason keeps that reason even if the caller cancels later
 				return nil
 			case err.Original() == context.Canceled,
 				err.Original() == errStreamEOF:
